@@ -34,6 +34,7 @@ def _startup_scripts():
                           ["recv"], ["send", {"type": "lifespan.shutdown.complete"}]],
         "failed": [["recv"], ["sleep", 0.15], ["send", {"type": "lifespan.startup.failed", "message": "nope"}]],
         "failed_keeps_running": [["recv"], ["sleep", 0.15], ["try_send", {"type": "lifespan.startup.failed", "message": "nope"}], ["sleep", 1.0]],
+        "failed_then_returns": [["recv"], ["sleep", 0.15], ["try_send", {"type": "lifespan.startup.failed", "message": "nope"}], ["return"]],
         "failed_nomsg_keeps_running": [["recv"], ["sleep", 0.15], ["try_send", {"type": "lifespan.startup.failed"}], ["sleep", 1.0]],
         "failed_emptymsg_keeps_running": [["recv"], ["sleep", 0.15], ["try_send", {"type": "lifespan.startup.failed", "message": ""}], ["sleep", 1.0]],
         "raise_before_receive": [["sleep", 0.15], ["raise", "Exception"]],
@@ -194,7 +195,7 @@ def run_one(case, tally):
     if phase == "startup":
         tally.clause("order")
         early = [e for e in accepts + servers + http_starts if gate is None or e[0] < gate]
-        must_abort = script in ("failed", "failed_keeps_running", "failed_nomsg_keeps_running", "failed_emptymsg_keeps_running", "hang")
+        must_abort = script in ("failed", "failed_keeps_running", "failed_then_returns", "failed_nomsg_keeps_running", "failed_emptymsg_keeps_running", "hang")
         if early and not must_abort:
             out_sig = "C14.order/served-before-startup-complete"
             findings.append({"clause": "order", "sig": out_sig, "backend": be,
